@@ -1300,6 +1300,170 @@ func c11MultiShape(r *Rng, sp *fspec) (c11In, [][]string, bool) {
 	return shape, steps, true
 }
 
+// ---- sequences with constant positional parameters ----
+// A compiled call whose parameters (substr pos/length, select index, bucket size, clamp bounds,
+// precisions, lookup table, pattern of prefix/like ...) are CONSTANTS may parse or normalise them once;
+// nothing a row does to them may leak into later rows.  These groups keep the parameters constant,
+// choose them at the boundaries of the step values (negative, zero, equal to / one past / far past the
+// length of some step values but not of others) and vary the dynamic argument strongly between steps
+// (empty first; shorter than, equal to, longer than the constant window; back and forth).
+
+// nil = the dynamic argument (a match group), string = constant
+func c11Param(fn string, args []any, steps ...[]string) c11Multi {
+	shape := c11In{Fn: fn}
+	for _, a := range args {
+		if a == nil {
+			shape.Args = append(shape.Args, c11Arg{Const: false})
+		} else {
+			v := a.(string)
+			shape.Args = append(shape.Args, c11Arg{Const: true, Val: hex.EncodeToString([]byte(v)), Text: strconv.QuoteToASCII(v)})
+		}
+	}
+	m := c11Multi{Mode: "sequence", Shape: shape}
+	for _, st := range steps {
+		h := make([]string, len(st))
+		for i, v := range st {
+			h[i] = hex.EncodeToString([]byte(v))
+		}
+		m.Steps = append(m.Steps, h)
+	}
+	return m
+}
+
+func c11One(vals ...string) [][]string {
+	out := make([][]string, len(vals))
+	for i, v := range vals {
+		out[i] = []string{v}
+	}
+	return out
+}
+
+func c11ParamGroups(r *Rng) []c11Multi {
+	var ms []c11Multi
+	// strings of strongly varying length, a clamping row before a row of another length, both ways
+	strs := c11One("", "abcdef", "0123456789", "xy", "abcdefgh", "z", "0123456789", "abc", "abcdef", "xy", "abcdefghijklmnopqrstuvwxyz", "abcd")
+	for _, pl := range [][2]string{{"-3", "3"}, {"4", "2"}, {"0", "3"}, {"-1", "1"}, {"6", "1"}, {"7", "5"}, {"2", "100"}, {"-100", "2"},
+		{"3", "0"}, {"10", "1"}, {"-6", "6"}, {"5", "-1"}, {"1", "9223372036854775807"}, {"-9223372036854775808", "4"}, {"2", "2"}, {"-2", "5"}} {
+		ms = append(ms, c11Param("substr", []any{nil, pl[0], pl[1]}, strs...))
+	}
+	// one parameter constant, the other a group holding the same value on every row
+	for _, pl := range [][2]string{{"-3", "3"}, {"4", "2"}, {"7", "5"}} {
+		var a, b [][]string
+		for _, st := range strs {
+			a = append(a, []string{st[0], pl[1]})
+			b = append(b, []string{st[0], pl[0]})
+		}
+		ms = append(ms, c11Param("substr", []any{nil, pl[0], nil}, a...))
+		ms = append(ms, c11Param("substr", []any{nil, nil, pl[1]}, b...))
+	}
+	fields := c11One("", "a", "a b c", "a  b\tc d e", " lead x", "one", "a b c d e f", "\"q r\" s t", "x y", "a b c")
+	for _, idx := range []string{"0", "1", "2", "4", "5", "-1", "9223372036854775807"} {
+		ms = append(ms, c11Param("select", []any{nil, idx}, fields...))
+	}
+	nums := c11One("", "0", "49", "50", "51", "-1", "-50", "-51", "abc", "999", "1000", "-1000", "9223372036854775807", "-9223372036854775808", "7", "+7", "007", "50")
+	for _, size := range []string{"1", "7", "50", "1000", "9223372036854775807"} {
+		ms = append(ms, c11Param("bucket", []any{nil, size}, nums...))
+		ms = append(ms, c11Param("bucketrange", []any{nil, size}, nums...))
+	}
+	for _, b := range [][2]string{{"0", "10"}, {"-50", "50"}, {"10", "0"}, {"7", "7"}, {"-9223372036854775808", "9223372036854775807"}, {"50", "999"}} {
+		ms = append(ms, c11Param("clamp", []any{nil, b[0], b[1]}, nums...))
+	}
+	floats := c11One("", "0", "0.5", "1.5", "2.5", "-1.5", "abc", "999.99999", "1234.5678", "1e21", "0.000049", "NaN", "123456789.125", "0.05", "1.5")
+	for _, pr := range []string{"0", "1", "3", "10", "-1", "1100"} {
+		ms = append(ms, c11Param("round", []any{nil, pr}, floats...))
+		ms = append(ms, c11Param("percent", []any{nil, pr}, floats...))
+	}
+	ms = append(ms, c11Param("percent", []any{nil, "1", "200"}, floats...))
+	ms = append(ms, c11Param("percent", []any{nil, "2", "-100", "100"}, floats...))
+	sizes := c11One("", "0", "999", "1000", "1023", "1024", "1025", "abc", "1048576", "999999", "1000000", "123456789012", "5", "-5", "9007199254740991", "1024")
+	for _, pr := range []string{"0", "1", "3"} {
+		for _, fn := range []string{"bytesize", "bytesizesi", "downscale"} {
+			ms = append(ms, c11Param(fn, []any{nil, pr}, sizes...))
+		}
+	}
+	keys := c11One("", "a", "b", "zz", "key", "a", "#x", "b ", "k2", "a")
+	for _, fn := range []string{"lookup", "haskey"} {
+		ms = append(ms, c11Param(fn, []any{nil, "a 1\nb two\n#x c\nkey\nb 3\nk2 v w\n"}, keys...))
+		ms = append(ms, c11Param(fn, []any{nil, "a 1\nb two\n#x c\nkey\nb 3\n", "#"}, keys...))
+	}
+	// a constant pattern / operand against dynamic values of varying length
+	words := c11One("", "ab", "abc", "a", "xxabcxx", "abcabc", "b", "ABC", "abc", " abc ", "ab", "abcd")
+	for _, fn := range []string{"prefix", "suffix", "like", "eq", "neq"} {
+		for _, pat := range []string{"abc", "", "a", "abcabc"} {
+			ms = append(ms, c11Param(fn, []any{nil, pat}, words...))
+			ms = append(ms, c11Param(fn, []any{pat, nil}, words...))
+		}
+	}
+	for _, fn := range []string{"sumi", "subi", "multi", "divi", "modi", "maxi", "mini"} {
+		ms = append(ms, c11Param(fn, []any{nil, "7"}, nums...))
+		ms = append(ms, c11Param(fn, []any{"100", nil}, nums...))
+		ms = append(ms, c11Param(fn, []any{nil, "0"}, nums...))
+	}
+	for _, fn := range []string{"lt", "gt", "lte", "gte"} {
+		ms = append(ms, c11Param(fn, []any{nil, "1.5"}, floats...))
+		ms = append(ms, c11Param(fn, []any{"1.5", nil}, floats...))
+	}
+	truths := c11One("", "1", " ", "a", "", "\t", "0", "x y", "\u00a0", "b")
+	ms = append(ms, c11Param("if", []any{nil, "yes", "no"}, truths...))
+	ms = append(ms, c11Param("unless", []any{nil, "v"}, truths...))
+	ms = append(ms, c11Param("switch", []any{nil, "A", "", "B", "dflt"}, truths...))
+	ms = append(ms, c11Param("coalesce", []any{nil, "fallback"}, truths...))
+	ms = append(ms, c11Param("and", []any{nil, "1"}, truths...))
+	ms = append(ms, c11Param("or", []any{nil, ""}, truths...))
+	ms = append(ms, c11Param("format", []any{"%5s|%-3s|", nil, "k"}, words...))
+	ms = append(ms, c11Param("csv", []any{"k", nil, ""}, c11One("", "a", "a,b", "q\"r", "line\nbreak", "plain", "a,b", "")...))
+	ms = append(ms, c11Param("tab", []any{"k", nil, "z"}, words...))
+
+	// and for every helper: only ONE argument dynamic, all the others constants taken from one draw of
+	// the helper's generator, the dynamic one re-drawn at every step
+	for i := range specs {
+		sp := &specs[i]
+		var base []c11Arg
+		for try := 0; try < 30; try++ {
+			base = sp.gen(r)
+			ok := len(base) >= 2
+			for _, a := range base {
+				if !constSafe(unhex(a.Val)) {
+					ok = false
+				}
+			}
+			if ok {
+				break
+			}
+			base = nil
+		}
+		if base == nil {
+			continue
+		}
+		dyn := 0
+		if r.Chance(1, 3) {
+			dyn = r.Intn(len(base))
+		}
+		args := make([]any, len(base))
+		for j, a := range base {
+			if j != dyn {
+				args[j] = unhex(a.Val)
+			}
+		}
+		steps := [][]string{{""}}
+		for k := 0; k < 9; k++ {
+			for try := 0; try < 30; try++ {
+				a := sp.gen(r)
+				if len(a) == len(base) {
+					steps = append(steps, []string{unhex(a[dyn].Val)})
+					break
+				}
+			}
+			if k == 3 || k == 6 {
+				steps = append(steps, steps[len(steps)-1], []string{Pick(r, c11JunkValues)})
+			}
+		}
+		steps = append(steps, steps[1])
+		ms = append(ms, c11Param(sp.name, args, steps...))
+	}
+	return ms
+}
+
 func c11MultiGen(r *Rng, tier string) []Case {
 	var cs []Case
 	rounds := 1
@@ -1307,6 +1471,34 @@ func c11MultiGen(r *Rng, tier string) []Case {
 		rounds = 6
 	}
 	for round := 0; round < rounds; round++ {
+		for gi, m := range c11ParamGroups(r) {
+			if c11HungFn[m.Shape.Fn] >= c11MaxHangsPerHelper {
+				continue
+			}
+			skip := false
+			for _, st := range m.Steps {
+				if c11Skip(c11Instantiate(m.Shape, st)) {
+					skip = true
+				}
+			}
+			if skip {
+				continue
+			}
+			// the index/window families run optimised and unoptimised, the others alternate
+			both := round == 0 && (m.Shape.Fn == "substr" || m.Shape.Fn == "select" || m.Shape.Fn == "bucket" || m.Shape.Fn == "clamp")
+			for _, opt := range []bool{true, false} {
+				if !both && (gi+round)%2 == 0 == opt {
+					continue
+				}
+				mo := m
+				mo.Optimize = opt
+				cases := c11MultiCases(mo)
+				for k := range cases {
+					cases[k].Tags = append(cases[k].Tags, "sequence-constant-parameters")
+				}
+				cs = append(cs, cases...)
+			}
+		}
 		for i := range specs {
 			sp := &specs[i]
 			if c11HungFn[sp.name] >= c11MaxHangsPerHelper {
@@ -1521,7 +1713,7 @@ func main() {
 			"deterministic sweep covers hi/expbucket/bucket/bucketrange over the whole integer boundary set and csv over " +
 			"every special character (boundary values by increasing magnitude, int64 extremes last). Every call runs on its own " +
 			"goroutine with a 2 s limit: the outcome ok/panic/hang is part of the observable, a panic or hang fails the property; after a hang " +
-			"further calls of the same helper and argument class (arity, sign and digit count of integer arguments) are skipped. SEQUENCE cases: per helper one call compiled once (optimised and unoptimised) and evaluated over 14 contexts (all-empty first and again, a value twice in a row, a non-number twice in a row between values, earlier contexts again in another order); CONCURRENT cases: the same compiled call evaluated 60000 times from each of 4-8 goroutines over different contexts after a start barrier (optimised and unoptimised); every single result is compared with the model value of its own context. Non-trivial: the output is not an error marker, or an argument came from a match group. " +
+			"further calls of the same helper and argument class (arity, sign and digit count of integer arguments) are skipped. SEQUENCE cases: per helper one call compiled once (optimised and unoptimised) and evaluated over 14 contexts (all-empty first and again, a value twice in a row, a non-number twice in a row between values, earlier contexts again in another order); SEQUENCE groups with constant positional parameters (substr pos/length, select index, bucket size, clamp bounds, precisions, lookup table, patterns, fold operands, and per helper all-but-one argument constant) chosen at the boundaries of step values whose length/magnitude varies strongly between steps; CONCURRENT cases: the same compiled call evaluated 60000 times from each of 4-8 goroutines over different contexts after a start barrier (optimised and unoptimised); every single result is compared with the model value of its own context. Non-trivial: the output is not an error marker, or an argument came from a match group. " +
 			"Distinct: by (function, argument values, constant/group).",
 		Gen:    c11Gen,
 		Replay: c11Replay,
